@@ -10,9 +10,9 @@ HARNESSES.append(
          funcs=["fill_dir_block", "copy_dir_entries", "get_next_block"],
          cut_statics={"e2fsck/rehash.c": ["alloc_size_dir"]},
          configs=[{"BLK": 32}, {"BLK": 36, "SWAP": None}, {"BLK": 32, "COMPRESS": None}, {"BLK": 48, "SWAP": None, "_tier": "thorough"}],
-         unwind=4, unwindset=["ref_count.0:34", "ref_count.1:12", "fill_dir_block.0:7", "copy_dir_entries.0:6",
-                              "main.0:42", "main.1:10", "main.2:10", "main.3:7", "main.4:7", "ext2fs_read_dir_block4.0:42",
-                              "memcpy.0:36", "memset.0:42"],
+         unwind=4, unwindset=["ref_count.0:50", "ref_count.1:14", "fill_dir_block.0:8", "copy_dir_entries.0:7",
+                              "main.0:50", "main.1:10", "main.2:10", "main.3:7", "main.4:7", "ext2fs_read_dir_block4.0:50",
+                              "memcpy.0:50", "memset.0:50"],
          backends=["default", "kissat"],
          bound="one directory block of 40 bytes, every byte symbolic; slack percentage 0..100; one symbolic transposition of the entry array"))
 HARNESSES.append(
